@@ -44,6 +44,8 @@ func main() {
 		os.Exit(2)
 	}
 	res := fn(o)
+	// every violation carries a replay file, whichever stream added it and whenever
+	res.WriteReplays(o.Verif+"/evidence/replays", o.Prop)
 	res.Property = o.Prop
 	res.Tier = o.Tier
 	res.Seed = o.Seed
